@@ -369,6 +369,10 @@ macro_rules! strict_ops {
                     "ff_inject0" => e_ff(&d_ff(&a[0])?.inject0(d_nat(&a[1])?)),
                     "ff_inject1" => e_ff(&d_ff(&a[0])?.inject1(d_nat(&a[1])?)),
                     "ff_initial" => e_ff(&FF::initial(d_nat(&a[0])?)),
+                    "ff_unit_objects" => Sx::L(vec![
+                        Sx::N(<FF as Coproduct>::initial_object()),
+                        Sx::N(<FF as Monoidal>::unit()),
+                    ]),
                     "ff_to_initial" => e_ff(&d_ff(&a[0])?.to_initial()),
                     "ff_identity" => ok(e_ff(&FF::identity(d_nat(&a[0])?))),
                     "ff_compose" => {
